@@ -53,6 +53,23 @@ class World:
                 setattr(self.G, name, B.build(ctx, v, t))
 
 
+def arbitrary_source(world):
+    def src(name, t):
+        from replay import builders as B
+
+        if world.pos >= len(world.returns):
+            if world.violations:
+                raise ReplayDone()
+            raise ReplayDiverged("native run needs more environment choices than the counter-model has")
+        i2, n2, val = world.returns[world.pos]
+        if i2 != "arbitrary":
+            raise ReplayDiverged("native run asks for an environment choice where the counter-model has %s.%s" % (i2, n2))
+        world.pos += 1
+        return B.build(world.ctx, val, t)
+
+    return src
+
+
 def find_iface(iface, name):
     key = "iface:%s.%s" % (iface, name)
     for c in S.CONTRACTS.values():
@@ -69,6 +86,12 @@ class ScriptedStub:
     def __deepcopy__(self, memo):
         return self
 
+    def __call__(self, *args, **kwargs):
+        c = find_iface(self._iface, "__call__")
+        if c is None:
+            raise TypeError("%s is not callable" % self._iface)
+        return self._call_iface(c, "__call__", args, kwargs)
+
     def __getattr__(self, name):
         if name.startswith("__"):
             raise AttributeError(name)
@@ -76,6 +99,17 @@ class ScriptedStub:
         c = find_iface(iface, name)
         if c is None:
             raise AttributeError("%s.%s has no interface contract" % (iface, name))
+
+        if getattr(c, "attribute", False):
+            return self._call_iface(c, name, (), {})
+
+        def call(*args, **kwargs):
+            return self._call_iface(c, name, args, kwargs)
+
+        return call
+
+    def _call_iface(self, c, name, args, kwargs):
+        world, iface = self._world, self._iface
 
         def call(*args, **kwargs):
             from replay import builders as B
@@ -105,7 +139,10 @@ class ScriptedStub:
                 eff(s)
             rt = getattr(c, "returns", None)
             result = None
-            if rt is not None:
+            mk = getattr(c, "make_result", None)
+            if mk is not None:
+                result = mk(s)
+            elif rt is not None:
                 if world.pos >= len(world.returns):
                     if world.violations:
                         raise ReplayDone()
@@ -119,8 +156,10 @@ class ScriptedStub:
                 # calls without a return value are still part of the model's call sequence
                 if world.pos < len(world.returns) and tuple(world.returns[world.pos][:2]) == (iface, name):
                     world.pos += 1
+            aft = getattr(c, "after", None)
+            if aft is not None:
+                aft(s, result)
             world.G.log.append(tuple(["%s.%s" % (iface, name)] + [bound[p] for p in pnames] + [result]))
-            exc = getattr(c, "native_raise", None)
             return result
 
-        return call
+        return call(*args, **kwargs)
